@@ -26,9 +26,13 @@ def run(ctx):
     ctx.trust(*B.registry().assumed)
     ctx.trust(*S.base_registry().assumed)
     ctx.assume("A-REAL: machine floats treated as mathematical reals; log/lgamma uninterpreted with term-directed axiom instances",
-               "telescoping of weights along a path follows from the per-step obligation L3 (sum of differences) - arithmetic, not machine-checked",
+               "telescoping of weights along a path follows from the per-step obligation L3 (sum of differences): lemmas/lean/MTelescope.lean (telescope, path_weight), thorough tier",
                "normalisation of the bootstrap proposal follows from faithfulness + class injectivity + the generator axioms (each primitive is a probability distribution)")
 
+    if ctx.tier == "thorough":
+        from vcheck import lean as L
+
+        L.check_file(ctx, "MTelescope.lean", "C08")  # telescoping of the per-step obligation L3 along a path
     # ---- bounded stand-in: exact enumeration of the three real proposals on small parents
     from bounded import proposals as BP
 
